@@ -275,14 +275,12 @@ impl<'a> Walk<'a> {
         F: Fn(Path) + Sync + Send,
         's: 'w,
     {
-        if self.path_selector.matches_dir(&path) {
-            Entry::from_path(path.clone())
-                .map_err(|e| self.log_warn(format!("Failed to stat {}: {}", path.display(), e)))
-                .into_iter()
-                .for_each(|entry| {
-                    self.visit_entry(entry, dev, scope, level, gitignore.clone(), state)
-                })
-        }
+        // Whether the path is selected depends on what it is: a directory is checked in `visit_dir`
+        // and a file in `visit_file`. A file is not a directory that could contain matching paths.
+        Entry::from_path(path.clone())
+            .map_err(|e| self.log_warn(format!("Failed to stat {}: {}", path.display(), e)))
+            .into_iter()
+            .for_each(|entry| self.visit_entry(entry, dev, scope, level, gitignore.clone(), state))
     }
 
     /// Visits a path that was already converted to an `Entry` so the entry type is known.
